@@ -277,19 +277,137 @@ def r3_reorder(ctx):
     ctx.check(n == 8, "cbreorder: eight option combinations evaluated", fn, n, nontrivial=False)
 
 
+def r4_static_condensation(ctx):
+    """_solve_eig removes massless DOF that have stiffness by static (Guyan) condensation before the free-free eigensolution and expands the
+    eigenvectors afterwards.  Decided on values (matrices treated as commuting symbols - enough for signs and partitions; independent of the
+    sign convention chosen for the condensation matrix): the reduced stiffness is the Schur complement Kxx - Kxz Kzz^-1 Kzx, the reduced
+    mass is Mxx, the eigenproblem is solved for exactly those two, and the massless rows of the expanded eigenvectors are -Kzz^-1 Kzx v -
+    otherwise the eigen-based rigid-body modes `rbe` are not rigid-body motion of the underlying structure on those DOF."""
+    from .sem import Sem, place
+    fn = ctx.src.func(CB, "_solve_eig")
+    K0, M0 = F.sym("K0"), F.sym("M0")
+
+    def call(node, ev):
+        d = dotted(node.func) or ""
+        if d in ("linalg.solve", "la.solve", "scipy.linalg.solve", "np.linalg.solve") and len(node.args) >= 2:
+            a, b = ev.ev(node.args[0]), ev.ev(node.args[1])
+            if is_unknown(a) or is_unknown(b):
+                return a if is_unknown(a) else b
+            return need(b) / need(a)
+        if d.endswith("eigsh") or d.endswith("eigh"):
+            vals = [ev.ev(a) for a in node.args]
+            kws = {k.arg: ev.ev(k.value) for k in node.keywords}
+            mm = kws.get("M", vals[2] if len(vals) > 2 else None)
+            if is_unknown(vals[0]) or mm is None or is_unknown(mm):
+                return NotImplemented
+            return (F.fn("eigval", need(vals[0]), need(mm)), F.fn("eigvec", need(vals[0]), need(mm)))
+        if d == "abs":
+            return ev.ev(node.args[0])
+        if d == "ytools.eig_si":
+            return (F.sym("lam_si"), F.sym("phi_si"), F.sym("_si"))
+        if d == "ytools.mattype":
+            return (F.sym("mtype"), F.sym("types"))
+        return NotImplemented
+
+    def run(null_cols, massless):
+        def cond(test, ev):
+            t = utext(test)
+            if t == "z.any()":
+                return null_cols
+            if t == "z_m.any()":
+                return massless
+            if t == "k.shape[0]<nz.shape[0]":
+                return null_cols or massless
+            if t.startswith("mtype&types"):
+                return True
+            return None
+        from .sem import and_binop
+        return Sem(ctx, fn, cond=cond, call=call, env={"k": K0, "m": M0, "K0": K0, "M0": M0}, binop=and_binop)
+
+    # ---- massless DOF present, no null columns
+    S = run(False, True)
+    E = S.E
+    zm = "(~M0.any(axis=0))"
+    nzm = "M0.any(axis=0)"
+    Kzz, Kzx, Kxz, Kxx = (E(f"K0[np.ix_({a}, {b})]") for a, b in ((zm, zm), (zm, nzm), (nzm, zm), (nzm, nzm)))
+    Mxx = E(f"M0[np.ix_({nzm}, {nzm})]")
+    psi = S.env("psi")
+    if psi is None or is_unknown(psi) or any(is_unknown(x) for x in (Kzz, Kzx, Kxz, Kxx, Mxx)):
+        ctx.error("_solve_eig: condensation block", fn, repr(psi))
+        return
+    ns = S.calls("SimpleNamespace")
+    eig = [c for c in S.ev.calls if c[0].endswith("eigsh")]
+    if len(ns) != 1 or len(eig) != 1:
+        ctx.error("_solve_eig: result namespace / eigensolver call", fn, [len(ns), len(eig)])
+        return
+    kred, mred = ns[0][2].get("k"), ns[0][2].get("m")
+    ok = S.same(kred, need(Kxx) - need(Kxz) * need(Kzx) / need(Kzz))
+    ctx.check(ok, "_solve_eig: the reduced stiffness is the Schur complement Kxx - Kxz Kzz^-1 Kzx (static condensation of the massless DOF)", ns[0][3],
+              None if ok else repr(kred))
+    ok = S.same(mred, Mxx)
+    ctx.check(ok, "_solve_eig: the reduced mass is the mass partition of the DOF that have mass", ns[0][3], None if ok else repr(mred))
+    ea = place(eig[0][1], eig[0][2], ["A", "k", "M"])
+    ok = S.same(ea.get("A"), kred) and S.same(ea.get("M"), mred)
+    ctx.check(ok, "_solve_eig: the eigenproblem is solved for the reduced stiffness and the reduced mass", eig[0][3])
+    vec = F.fn("eigvec", need(kred), need(mred)) if ok else None
+    vret = ns[0][2].get("v")
+    cells = S.cells("v2")
+    got = {}
+    for ix, val, st in cells:
+        got[repr(ix)] = val
+    want_z = E(f"v2[{zm}, :]")
+    want_x = E(f"v2[{nzm}, :]")
+    def cell(idxtext):
+        w = S.E(f"v2[{idxtext}]")
+        for ix, val, st in cells:
+            if not is_unknown(ix) and not is_unknown(w) and need(F.fn("idx", F.sym("v2"), ix)).equals(need(w)):
+                return val
+        return None
+    ok = vec is not None and S.same(vret, "v2") and S.same(cell(f"{nzm}, :"), vec) and S.same(cell(f"{zm}, :"), -(need(Kzx) / need(Kzz)) * vec) and len(cells) == 2
+    ctx.check(ok, "_solve_eig: expanded eigenvectors satisfy the equilibrium of the massless DOF, Kzz v_z + Kzx v_x = 0 (rows with mass = v, massless rows = "
+                  "-Kzz^-1 Kzx v): the eigen-based rigid-body modes are rigid on those DOF too", fn,
+              None if ok else {"stores": [(repr(i), repr(v)) for i, v, _ in cells]})
+    # ---- null columns present, no massless DOF
+    S = run(True, False)
+    E = S.E
+    nz = "(M0.any(axis=0) | K0.any(axis=0))"
+    ns = S.calls("SimpleNamespace")
+    eig = [c for c in S.ev.calls if c[0].endswith("eigsh")]
+    if len(ns) != 1 or len(eig) != 1:
+        ctx.error("_solve_eig: result namespace / eigensolver call (null columns)", fn)
+        return
+    ok = S.same(ns[0][2].get("k"), f"K0[np.ix_({nz}, {nz})]") and S.same(ns[0][2].get("m"), f"M0[np.ix_({nz}, {nz})]")
+    ctx.check(ok, "_solve_eig: null rows and columns (no mass and no stiffness) are removed from both matrices by the same mask", ns[0][3],
+              None if ok else {"k": repr(ns[0][2].get("k")), "m": repr(ns[0][2].get("m"))})
+    cells = S.cells("v2")
+    vec = F.fn("eigvec", need(ns[0][2]["k"]), need(ns[0][2]["m"])) if ok else None
+    def cell2(idxtext):
+        w = S.E(f"v2[{idxtext}]")
+        for ix, val, st in cells:
+            if not is_unknown(ix) and not is_unknown(w) and need(F.fn("idx", F.sym("v2"), ix)).equals(need(w)):
+                return val
+        return None
+    ok = vec is not None and S.same(cell2(f"{nz}, :"), vec) and S.same(cell2(f"~{nz}, :"), "0.0") and len(cells) == 2
+    ctx.check(ok, "_solve_eig: eigenvectors get zero rows at the removed DOF and the computed rows elsewhere", fn,
+              None if ok else {"stores": [(repr(i), repr(v)) for i, v, _ in cells]})
+
+
 RULES = [
     ("C06-R1", r1_cbtf, 14),
     ("C06-R2", r2_conversion, 11),
     ("C06-R3", r3_reorder, 8),
+    ("C06-R4", r4_static_condensation, 6),
 ]
 LEVEL = "other"
 EXPLANATION = ("Static: cbtf uses the boundary/interior partitions consistently (index-space typing), returns the enforced boundary acceleration itself, loads the "
                "interior equations with the coupling terms of the full equations, solves them with no rigid-body set; unit-conversion constants are exact "
-               "reciprocals and applied on the documented sides and rows; cbreorder permutes symmetrically.")
+               "reciprocals and applied on the documented sides and rows; cbreorder permutes symmetrically; _solve_eig's static condensation of massless DOF "
+               "(Schur complement, reduced mass, expansion satisfying the massless equilibrium) and its removal of null rows/columns.")
 MANIFEST = {
     "text": "Thin partial claim decided statically: (R1) cbtf partition typing, enforced boundary acceleration, interior right-hand side, boundary force rows, rb=[]; "
             "(R2) m2e/e2m constants reciprocal to 2^-51, cbconvert C/D diagonals per block and their inverses, uset_convert scales exactly the length rows; "
-            "(R3) cbreorder's symmetric permutation. Not decided: cbcheck's rigid-body, effective-mass and grounding numbers, cgmass, numerical accuracy of cbtf.",
+            "(R3) cbreorder's symmetric permutation; (R4) cbcheck's free-free eigensolution helper _solve_eig: reduced stiffness = Kxx - Kxz Kzz^-1 Kzx, reduced mass = Mxx, "
+            "the eigenproblem solved for exactly those, expanded massless rows = -Kzz^-1 Kzx v, null rows/columns removed by one mask and re-inserted as zeros. Not decided: cbcheck's rigid-body, effective-mass and grounding numbers, cgmass, numerical accuracy of cbtf.",
     "note": "Trusted: CPython ast; verifier/e2_formula.py, verifier/e3_spaces.py; the USET row layout documented in n2p.addgrid (row 1 location, row 2 ids, row 3 origin, rows 4-6 T).",
     "technique": "static index-space typing + symbolic factor checks + structural who-passes-what rules",
 }
